@@ -1,0 +1,7 @@
+//go:build !verif
+// +build !verif
+
+package main
+
+// verifYield is a no-op unless built with -tags verif (see verif_yield.go).
+func verifYield(int) {}
